@@ -1,4 +1,5 @@
 import LyModel.Sib.Tree
+import LyModel.Sib.TreeMk
 import LyModel.Sib.Rb
 import LyModel.Sib.RbDel
 import LyModel.Sib.RbMerge
@@ -10,6 +11,8 @@ driver ops of component `sib`:
   sides agree on it); the YANG text is for the harness only; `script` = ops separated by `;`, arguments by `,`:
 
     new,<id>,<parent|->,<mod:name>,<value-hex>     newopaq,<id>,<parent|->,<name>,<value-hex>
+    newlist2,<id>,<parent|->,<mod:name>,<predicates-hex>   newpath,<id>,<parent|->,<path-hex>,<value-hex>
+    findkeys,<anchor>,<mod:name>,<predicates-hex>
     ins_child,<id>,<target>   ins_sibling,<id>,<target>   ins_before,<id>,<target>   ins_after,<id>,<target>
     unlink,<id>   free,<id>   change,<id>,<value-hex>   find,<anchor>,<mod:name>,<value-hex>
 
@@ -69,6 +72,18 @@ def runOp (f : Forest) (op : String) : Res :=
   | ["find", a, nm, v] =>
     match a.toNat?, Hex.dec v with
     | some a, some v => let (m, n) := splitName nm; opFind f a m n v
+    | _, _ => .refuse "BadArg"
+  | ["newlist2", id, par, nm, preds] =>
+    match id.toNat?, optNat par, Hex.dec preds with
+    | some id, some par, some ps => let (m, n) := splitName nm; opNewList2 f id par m n ps
+    | _, _, _ => .refuse "BadArg"
+  | ["newpath", id, par, path, v] =>
+    match id.toNat?, optNat par, Hex.dec path, Hex.dec v with
+    | some id, some par, some p, some v => opNewPath f id par p v
+    | _, _, _, _ => .refuse "BadArg"
+  | ["findkeys", a, nm, preds] =>
+    match a.toNat?, Hex.dec preds with
+    | some a, some ps => let (m, n) := splitName nm; opFindKeys f a m n ps
     | _, _ => .refuse "BadArg"
   | _ => .refuse "BadOp"
 
@@ -135,6 +150,14 @@ def rbStep (acc : String × RbSt) (tok : String) : String × RbSt :=
     | some (x, st') =>
       let st'' := if st.sibs.length ≤ 1 then st else rbInsert st' x
       (acc.1 ++ rbShow st'', st'')
+  | "s" =>
+    -- `lyd_unlink_siblings` of the i-th instance: `lyds_split`
+    match arg.toNat? with
+    | none => (acc.1 ++ " | R:NoInst", st)
+    | some i =>
+      if i ≥ st.sibs.length then (acc.1 ++ " | R:NoInst", st) else
+      let st' : RbSt := { st with lyds := st.lyds.split i, sibs := st.sibs.take i }
+      (acc.1 ++ rbShow st', st')
   | _ => (acc.1 ++ " | R:BadOp", st)
 
 def handle (op : String) (args : List String) : String :=
@@ -170,6 +193,16 @@ def handle (op : String) (args : List String) : String :=
       if d.sibs.isEmpty then "err Empty" else
       let t := Rb.mergeTree rbGt d.lyds.tree d.sibs (if dup then .nil else s.lyds.tree) s.sibs
       "ok" ++ rbShow { d with lyds := ⟨t, d.sibs.length + s.sibs.length⟩, sibs := Rb.inorder t }
+  | "rbd", [_variant, _desc, _yang, dscript, sscript] =>
+    -- `lyd_merge_siblings(…, LYD_MERGE_DESTRUCT)`: the source instances the target lacks, in sibling order, through `lyds_insert2`
+    let run := fun (st : RbSt) (sc : String) => (((sc.splitOn ",").filter (· ≠ "")).foldl rbStep ("", st)).2
+    let d := run ⟨Rb.Lyds.empty, [], 0⟩ dscript
+    let s := run ⟨Rb.Lyds.empty, [], d.serial⟩ sscript
+    let moved := s.sibs.filter (fun x => !(d.sibs.any (fun y => y.1 == x.1)))
+    let r := moved.foldl (fun (st : RbSt) (x : RbInst) =>
+      ({ st with lyds := Rb.Lyds.insert2 rbGt st.sibs.head? x st.lyds,
+                 sibs := st.sibs.takeWhile (fun e => !rbGt e x) ++ x :: st.sibs.dropWhile (fun e => !rbGt e x) } : RbSt)) d
+    "ok" ++ rbShow r
   | "rbleak", [] => "ok 0"
   | _, _ => "err BadOp"
 
